@@ -12,16 +12,22 @@ H = []
 
 
 def add(prop, name, tiers, timeout_s=900, mem_gb=8, build="small", inputs="", bound="", role=None,
-        body=None, unwind=8, fmt=False):
+        body=None, unwind=8, flavour="std", est_gb=None, batch=0):
     """body: Rust path of the harness body `fn(&mut Nd)` (default crate::<mod>::<proof>);
-    fmt=True keeps core::fmt real (no fmt stubs)."""
+    flavour: "std" = all stubs of DESIGN.md section 4; "nofmt" keeps core::fmt real (C14);
+    "ryu" additionally stubs ryu::Buffer::format_finite (C03 finite floats)."""
     mod, proof = name.split("::")
+    gmod = mod + ("" if flavour == "std" else "_" + flavour)
     H.append({
-        "property": prop, "name": name, "kani_name": "gen::%s::k::%s" % (mod + ("_fmt" if fmt else ""), proof),
-        "body_name": proof, "mod": mod, "fmt": fmt,
+        "property": prop, "name": name, "kani_name": "gen::%s::k::%s" % (gmod, proof),
+        "body_name": proof, "mod": mod, "flavour": flavour, "gmod": gmod,
         "body": body or "crate::%s::%s" % (mod, proof), "unwind": unwind,
         "tiers": set(tiers), "timeout_s": timeout_s, "mem_gb": mem_gb, "build": build,
         "inputs": inputs, "bound": bound, "role": role or proof,
+        # mem_gb is the kill threshold; est_gb what the scheduler reserves (typical use is well below the cap)
+        "est_gb": est_gb if est_gb is not None else max(2, mem_gb // 2),
+        # batch > 0: up to that many harnesses of the same module per `cargo kani` invocation
+        "batch": batch,
     })
 
 
@@ -37,11 +43,21 @@ def read_states():
 C01_QUICK = {(8, 0), (8, 6), (8, 7), (16, 0), (16, 14), (16, 15), (24, 23), (32, 0), (32, 24), (32, 30), (32, 31)}
 for L, RP in read_states():
     quick = (L, RP) in C01_QUICK
-    add("C01", "p01::read_step_l%d_r%02d" % (L, RP), Q if quick else T, 900, 8,
+    # One transport step per call: the inductive step of the read loop (the state after a read that
+    # does not complete the frame is the pre-state of another instance of the family).
+    add("C01", "p01::read_step1_l%d_r%02d" % (L, RP), Q if quick else T, 900, 8,
+        body="crate::p01::read_step::<%d, %d, 1, false>" % (L, RP), unwind=42,
+        inputs="read buffer len=%d, read_pos=%d (concrete), the %d buffered bytes symbolic (last one not NUL); one transport step symbolic in kind {data, pending, eof, error}, chunk length 1..=8 and chunk bytes, then end of stream" % (L, RP, RP),
+        bound="one read_from_socket call, 1 transport read (+ EOF), small build (STEP=8, MAX=32)", role="read_step")
+    add("C07", "p01::read_step1_cancel_l%d_r%02d" % (L, RP), Q if quick else T, 900, 8,
+        body="crate::p01::read_step::<%d, %d, 1, true>" % (L, RP), unwind=42,
+        inputs="as C01 read_step1 (len=%d, read_pos=%d), plus: at every Pending a symbolic bool decides whether the receive future is dropped and a new one created" % (L, RP),
+        bound="1 transport step, <= 2 futures, small build", role="read_step_cancel")
+    add("C01", "p01::read_step_l%d_r%02d" % (L, RP), T, 2400, 8,
         body="crate::p01::read_step::<%d, %d, 2, false>" % (L, RP), unwind=42,
         inputs="read buffer len=%d, read_pos=%d (concrete), the %d buffered bytes symbolic (last one not NUL); transport script of 2 steps, each symbolic in kind {data, pending, eof, error}, chunk length 1..=8 and chunk bytes" % (L, RP, RP),
         bound="one read_from_socket call, <= 2 transport reads (+ EOF), small build (STEP=8, MAX=32)", role="read_step")
-    add("C07", "p01::read_step_cancel_l%d_r%02d" % (L, RP), Q if quick else T, 900, 8,
+    add("C07", "p01::read_step_cancel_l%d_r%02d" % (L, RP), T, 2400, 8,
         body="crate::p01::read_step::<%d, %d, 2, true>" % (L, RP), unwind=42,
         inputs="as C01 read_step (len=%d, read_pos=%d), plus: at every Pending a symbolic bool decides whether the receive future is dropped and a new one created" % (L, RP),
         bound="<= 2 transport steps, <= 3 futures, small build", role="read_step_cancel")
@@ -59,6 +75,12 @@ for (L, RP, MP) in ((8, 5, 3), (16, 12, 4), (32, 31, 16)):
         body="crate::p01::read_step_buffered::<%d, %d, %d>" % (L, RP, MP), unwind=42,
         inputs="state with a frame already buffered (len=%d, read_pos=%d, msg_pos=%d), buffer bytes symbolic" % (L, RP, MP),
         bound="one call", role="read_step_buffered")
+
+for (n1, n2, cut, q) in ((2, 2, 0, True), (2, 2, 3, True), (2, 2, 1, False), (2, 2, 4, False), (3, 2, 0, False), (3, 2, 4, False), (3, 2, 5, False), (2, 3, 0, False), (1, 1, 0, True), (1, 1, 2, False)):
+    add("C01", "p01::recv_frames_%d_%d_c%d" % (n1, n2, cut), Q if q else T, 2400, 12,
+        body="crate::p01::recv_frames::<%d, %d, %d>" % (n1, n2, cut), unwind=12,
+        inputs="stream F1 NUL F2 NUL, F1 = %d and F2 = %d arbitrary non-NUL bytes, %s, then end of stream; three receives of u8" % (n1, n2, "one read" if cut == 0 else "cut into two reads after %d bytes" % cut),
+        bound="end to end through read_message::<u8> (transport read, frame boundary, serde_json decode) on 2 frames of <= 3 bytes, small build", role="recv_frames")
 add("C01", "p01::read_init", Q, 300, 4, inputs="none (initial state of the induction)", bound="Connection::new", unwind=4)
 
 for ch in (3, 7, 8):
@@ -78,6 +100,11 @@ for (L, P) in ((32, 12), (32, 13), (32, 29), (32, 32), (24, 24)):
         body="crate::p02::enqueue_reply_at::<%d, %d>" % (L, P), unwind=74,
         inputs="write buffer len=%d, pos=%d; Reply<()> with symbolic continues (2/18/19 bytes)" % (L, P),
         bound="one enqueue from the concrete state", role="limit_out")
+
+add("X00", "p01::read_probe_nopend", T, 900, 8, body="crate::p01::read_probe::<false>", unwind=10, inputs="probe", bound="probe")
+for v in range(4):
+    add("X00", "p01::read_probe2_v%d" % v, T, 900, 8, body="crate::p01::read_probe2::<%d>" % v, unwind=10, inputs="probe", bound="probe")
+add("X00", "p01::read_probe_pend", T, 900, 8, body="crate::p01::read_probe::<true>", unwind=10, inputs="probe", bound="probe")
 
 # ---------------------------------------------------------------------------------------- C13
 for n in (4, 5, 6):
@@ -128,6 +155,115 @@ for kind, what in C02_KINDS:
                 role=kind)
 add("C02", "p02::write_init", Q, 300, 4, inputs="none (initial state of the induction)", bound="Connection::new", unwind=4)
 
+
+# ---------------------------------------------------------------------------------------- C03
+C03_B = "zlink to_slice vs serde_json::to_writer on the same value, every buffer capacity 0..=%d"
+def c03(name, tiers, n, inputs, timeout=1800, mem=12, flavour="std", body=None):
+    add("C03", "p03::" + name, tiers, timeout, mem, build="prod", body=body or ("crate::p03::" + name), unwind=n + 2,
+        inputs=inputs + "; buffer capacity symbolic", bound=C03_B % n, role=name, flavour=flavour)
+
+c03("ser_char_value", T, 8, "one Unicode scalar (all 1 112 064) serialized as char")
+c03("ser_char_str", Q, 8, "one Unicode scalar (all 1 112 064) serialized as a 1-char &str")
+c03("ser_char_key", T, 16, "one Unicode scalar as a map key; length hint symbolic")
+c03("ser_ascii_1", Q, 8, "1 arbitrary ASCII byte as &str", body="crate::p03::ser_ascii::<1>")
+c03("ser_ascii_2", Q, 14, "2 arbitrary ASCII bytes as &str (all adjacencies of escaped/plain bytes)", body="crate::p03::ser_ascii::<2>")
+c03("ser_ascii_3", T, 20, "3 arbitrary ASCII bytes as &str", body="crate::p03::ser_ascii::<3>", timeout=3000)
+c03("ser_str2", T, 14, "string of 0..=2 arbitrary Unicode scalars", timeout=3000)
+for t, n, q in (("u8", 4, Q), ("i8", 4, T), ("u16", 6, T), ("i16", 6, Q), ("u32", 10, T), ("i32", 11, T), ("u64", 20, T), ("i64", 20, T), ("u128", 40, T), ("i128", 40, T)):
+    c03("ser_int_" + t, q, n, "every %s value as a JSON number (real itoa on both sides)" % t)
+    c03("ser_key_" + t, T if t != "u8" else Q, n + 10, "every %s value as a quoted map key" % t)
+c03("ser_float_nonfinite_f32", T, 4, "every f32 bit pattern that is NaN or infinite")
+c03("ser_float_nonfinite_f64", Q, 4, "every f64 bit pattern that is NaN or infinite")
+c03("ser_float_finite_f32", T, 26, "every finite f32 bit pattern; ryu::Buffer::format_finite stubbed by a harness-chosen text on both sides", flavour="ryu")
+c03("ser_float_finite_f64", T, 26, "every finite f64 bit pattern; ryu::Buffer::format_finite stubbed by a harness-chosen text on both sides", flavour="ryu")
+c03("ser_shape_scalars", Q, 5, "bool / unit / unit struct / Option<u8> / newtype struct / Option<()> with symbolic leaves")
+c03("ser_shape_products", Q, 19, "tuple / tuple struct / struct{a:u8,b:bool} with symbolic leaves")
+c03("ser_shape_enum", Q, 17, "unit / newtype / tuple / struct enum variant, symbolic choice and leaves")
+c03("ser_shape_seq", T, 9, "slice of u8 with symbolic length 0..=2")
+c03("ser_shape_seq_str", T, 19, "slice of two 1-byte ASCII strings, symbolic length 0..=2")
+c03("ser_shape_map", T, 27, "map with 0..=2 entries, u8 keys, bool values, length hint present or not")
+c03("ser_shape_bytes", T, 9, "byte array (serialize_bytes) of symbolic length 0..=2")
+c03("ser_shape_nested", T, 50, "struct{Option<tuple struct>, enum, slice<bool>} with symbolic choices", timeout=3000)
+c03("ser_key_accepted", Q, 16, "map key kinds &str / unit variant (incl. a renamed variant needing escapes) / newtype struct around &str")
+c03("ser_key_refused", Q, 16, "map key kinds bool, f32, f64, unit, Some, None, bytes, array, struct, newtype variant, unit struct, map")
+
+
+
+# ---------------------------------------------------------------------------------------- C04
+add("C04", "p04::probe_concrete", T, 3600, 12, build="prod", unwind=260, inputs="none (feasibility probe)", bound="one concrete frame")
+
+# ---------------------------------------------------------------------------------------- C05
+from math import factorial
+def popcount(x):
+    return bin(x).count("1")
+
+C05_B = "one envelope at the serde data-model level (token deserializer with serde_json's dispatch rules, cross-checked natively against serde_json)"
+C05_CALL_QUICK = {(31, 0), (31, 719), (31, 153), (31, 407), (0, 0), (1, 1), (3, 4), (16, 1), (30, 23), (15, 60)}
+NAMES6 = ["parameters", "oneway", "more", "upgrade", "x"]
+for mask in range(32):
+    k = 1 + popcount(mask)
+    members = ["method"] + [n for i, n in enumerate(NAMES6) if mask >> i & 1]
+    for o in range(factorial(k)):
+        add("C05", "p05::call_decode_m%02d_o%03d" % (mask, o), Q if (mask, o) in C05_CALL_QUICK else T, 600, 6, build="prod",
+            body="crate::p05::call_decode_order::<%d, %d>" % (mask, o), unwind=50,
+            inputs="Call<Meth> decoded from an object with members {%s} in permutation #%d of them; method name symbolic among 3 declared + 1 undeclared, parameters (when present) symbolic in {null, {}, object with the field}, each present flag a symbolic bool, x symbolic in {number, null, object}, u32 field value symbolic" % (", ".join(members), o),
+            bound=C05_B, role="call_decode_order")
+NAMES_S = ["oneway", "more", "upgrade", "x"]
+for mask in range(16):
+    k = 2 + popcount(mask)
+    for o in range(factorial(k)):
+        if k >= 5 and o % 11 != 0:
+            continue   # 5 and 6 members: every 11th order (all orders of <= 4 members)
+        add("C05", "p05::call_strict_m%02d_o%03d" % (mask, o), Q if (mask, o) in ((15, 0), (15, 715), (8, 3), (0, 1)) else T, 600, 6, build="prod",
+            body="crate::p05::call_decode_strict::<%d, %d>" % (mask, o), unwind=50,
+            inputs="Call<Strict> (method type with deny_unknown_fields) from {method, parameters, %s} in permutation #%d; flag values and the unknown member's value symbolic" % (", ".join(n for i, n in enumerate(NAMES_S) if mask >> i & 1), o),
+            bound=C05_B, role="call_decode_strict")
+for mask in range(4):
+    k = 1 + popcount(mask)
+    for o in range(factorial(k)):
+        add("C05", "p05::service_method_m%d_o%d" % (mask, o), Q, 600, 6, build="prod",
+            body="crate::p05::service_method_decode::<%d, %d>" % (mask, o), unwind=50,
+            inputs="Call<varlink_service::Method> from method + {%s} in permutation #%d; GetInfo/GetInterfaceDescription symbolic; parameters in {null, {}, {interface}}" % (", ".join(n for i, n in enumerate(["parameters", "more"]) if mask >> i & 1), o),
+            bound=C05_B, role="service_method_decode")
+        add("C05", "p05::error_decode_m%d_o%d" % (mask, o), Q, 600, 6, build="prod",
+            body="crate::p05::error_decode_order::<%d, %d>" % (mask, o), unwind=50,
+            inputs="ReplyError-derived enum (unit, struct, renamed-field, borrowed+Option variants, undeclared name; symbolic) from error + {%s} in permutation #%d; parameters in {null, {}, fields}" % (", ".join(n for i, n in enumerate(["parameters", "x"]) if mask >> i & 1), o),
+            bound=C05_B, role="error_decode_order")
+for mask in range(2):
+    for o in range(factorial(1 + mask)):
+        add("C05", "p05::service_error_m%d_o%d" % (mask, o), Q, 600, 6, build="prod",
+            body="crate::p05::service_error_decode::<%d, %d>" % (mask, o), unwind=50,
+            inputs="varlink_service::Error from error%s in permutation #%d; PermissionDenied/ExpectedMore/MethodNotFound symbolic; parameters in {null, {}, {method}}" % (" + parameters" if mask else "", o),
+            bound=C05_B, role="service_error_decode")
+add("C05", "p05::call_roundtrip", Q, 900, 6, build="prod", unwind=50,
+    inputs="Call<Meth> with symbolic variant (unit / struct / borrowed), symbolic u32 field and 8 flag sets: encode to tokens, check shape, decode, compare",
+    bound="one call", role="call_roundtrip")
+add("C05", "p05::error_encode_roundtrip", Q, 900, 6, build="prod", unwind=50,
+    inputs="ReplyError-derived enum value with symbolic variant (2 unit, struct, renamed field, borrowed+Option) and symbolic field values: encode, check shape and wire names, decode, compare",
+    bound="one error", role="error_encode_roundtrip")
+add("C05", "p05::reply_roundtrip", Q, 900, 6, build="prod", unwind=50,
+    inputs="Reply<Out> with parameters present/absent and continues in {None, false, true} (symbolic): encode, check shape, decode from either member order, compare",
+    bound="one reply", role="reply_roundtrip")
+
+# ---------------------------------------------------------------------------------------- C12
+C12_M = ["ping", "add", "say", "opt", "renamed_method", "ren_param", "watch", "notify", "get_2fa_code"]
+C12_ARGS = "arguments symbolic: a: u8, b: bool, x: Option<u8> (presence and value), 1-byte ASCII &str"
+for i, mname in enumerate(C12_M):
+    add("C12", "p12::proxy_plain_%s" % mname, Q if mname in ("opt", "ren_param", "watch", "notify") else T, 1800, 10, build="prod",
+        body="crate::p12::proxy_plain::<%d>" % i, unwind=162,
+        inputs="generated method `%s` of the corpus trait (real #[proxy] expansion); %s" % (mname, C12_ARGS),
+        bound="one call on a fresh connection (production buffer constants), frame <= 80 bytes", role="proxy_plain")
+    if mname != "notify":
+        add("C12", "p12::proxy_chain_%s" % mname, Q if mname in ("opt", "ren_param", "watch", "add") else T, 1800, 10, build="prod",
+            body="crate::p12::proxy_chain::<%d>" % i, unwind=162,
+            inputs="generated `chain_%s(..).send()`; %s" % (mname, C12_ARGS),
+            bound="one chain of one call on a fresh connection", role="proxy_chain")
+    if mname not in ("notify", "watch"):
+        add("C12", "p12::proxy_ext_%s" % mname, Q if mname in ("opt", "ren_param") else T, 1800, 10, build="prod",
+            body="crate::p12::proxy_ext::<%d>" % i, unwind=162,
+            inputs="generated `chain_ping().%s(..).send()`; %s" % (mname, C12_ARGS),
+            bound="one chain of two calls on a fresh connection", role="proxy_ext")
+
 # ---------------------------------------------------------------------------------------- C06
 add("C06", "p06::stream_counts_ready", Q, 900, 10, body="crate::p06::stream_counts::<3, false>", unwind=16,
     inputs="owed reply count 0..=3 symbolic; per receive a symbolic outcome in {continuing reply, final reply (continues absent), final reply (continues=false), method error, transport error}; up to 6 receives",
@@ -174,11 +310,11 @@ def generate_rust():
     """The text of harness/src/gen.rs: one `harnesses!` block per (module, fmt flavour)."""
     groups = {}
     for h in H:
-        groups.setdefault((h["mod"], h["fmt"]), []).append(h)
+        groups.setdefault((h["gmod"], h["flavour"]), []).append(h)
     out = ["// @generated by `./check --gen` from vlib/catalog.py — do not edit.", ""]
-    for (mod, fmt), hs in sorted(groups.items()):
-        out.append("pub mod %s {" % (mod + ("_fmt" if fmt else "")))
-        out.append("    crate::harnesses! {%s" % (" nofmt" if fmt else ""))
+    for (gmod, flavour), hs in sorted(groups.items()):
+        out.append("pub mod %s {" % gmod)
+        out.append("    crate::harnesses! {%s" % ("" if flavour == "std" else " " + flavour))
         for h in hs:
             out.append("        %s: %d => %s," % (h["body_name"], h["unwind"], h["body"]))
         out.append("    }")
@@ -187,8 +323,8 @@ def generate_rust():
     out.append("#[cfg(not(kani))]")
     out.append("pub fn registry() -> Vec<(&'static str, fn(&mut crate::Nd))> {")
     out.append("    let mut v = Vec::new();")
-    for (mod, fmt) in sorted(groups):
-        out.append("    v.extend_from_slice(%s::LIST);" % (mod + ("_fmt" if fmt else "")))
+    for (gmod, flavour) in sorted(groups):
+        out.append("    v.extend_from_slice(%s::LIST);" % gmod)
     out.append("    v")
     out.append("}")
     return "\n".join(out) + "\n"
